@@ -35,6 +35,8 @@ var detRe = regexp.MustCompile(`^(C\d+)\((.*)\)$`)
 
 func runSelftest(c *Check) {
 	dirs, _ := filepath.Glob(filepath.Join(verifDir, "seeded", "C*-m*"))
+	own, _ := filepath.Glob(filepath.Join(verifDir, "seeded", "own", "*"))
+	dirs = append(dirs, own...)
 	sort.Strings(dirs)
 	type job struct {
 		dir   string
@@ -50,6 +52,9 @@ func runSelftest(c *Check) {
 		var m seedMeta
 		if json.Unmarshal(b, &m) != nil {
 			continue
+		}
+		if m.ID == "" {
+			m.ID = filepath.Base(d)
 		}
 		for _, db := range m.DetectedBy {
 			mm := detRe.FindStringSubmatch(db)
